@@ -123,11 +123,12 @@ def signer_home():
     if _signer_home is None or not os.path.isdir(_signer_home) or getattr(signer_home, 'pid', None) != os.getpid():
         h = tempfile.mkdtemp(prefix='vgpg.', dir=scratch_base())
         os.chmod(h, 0o700)
-        with open(os.path.join(h, 'gpg.conf'), 'w') as f:
-            f.write('trust-model always\n')
         for n in ('signer', 'expiring', 'revoked', 'other'):
             subprocess.run([REAL_GPG, '--batch', '--import', keyfile(n + '.sec.asc')],
                            env=dict(os.environ, GNUPGHOME=h), capture_output=True, check=True, timeout=60)
+        subprocess.run([REAL_GPG, '--batch', '--import-ownertrust'],
+                       input=''.join('%s:6:\n' % f for f in FPR.values()).encode(),
+                       env=dict(os.environ, GNUPGHOME=h), capture_output=True, check=True, timeout=60)
         _signer_home = h
         signer_home.pid = os.getpid()
         atexit.register(_cleanup_home, h)
@@ -153,10 +154,16 @@ def gpg_cleartext(signed, faketime=BEFORE_EXPIRY):
     """What the OpenPGP implementation itself considers the signed text:
     `gpg --decrypt` output (trust-model always home with all test keys).
     Returns (text or None, good?)."""
-    p = subprocess.run([REAL_GPG, '--batch', '--faked-system-time', faketime, '--status-fd', '2', '--decrypt'],
+    ft = ['--faked-system-time', faketime] if faketime else []
+    p = subprocess.run([REAL_GPG, '--batch'] + ft + ['--status-fd', '2', '--decrypt'],
                        input=signed.encode('utf8'), env=dict(os.environ, GNUPGHOME=signer_home(), TZ='UTC'),
                        capture_output=True, timeout=60)
     good = b'[GNUPG:] GOODSIG' in p.stderr and b'[GNUPG:] VALIDSIG' in p.stderr and p.returncode == 0
+    gpg_cleartext.last_fpr = None
+    for l in p.stderr.split(b'\n'):
+        if l.startswith(b'[GNUPG:] VALIDSIG '):
+            sp = l.split(b' ')
+            gpg_cleartext.last_fpr = sp[-1].decode('ascii', 'replace')
     try:
         return p.stdout.decode('utf8'), good
     except UnicodeDecodeError:
